@@ -28,7 +28,7 @@ package csrf
 //@ macro validEntry(t) = urlOK(t) && (urlScheme(t) == "http" || urlScheme(t) == "https") && !strContains(urlHost(t), "*") && urlHost(t) != "" && (urlPath(t) == "" || urlPath(t) == "/") && urlQuery(t) == "" && urlFragment(t) == ""
 //@ macro normOf(t) = lower(urlScheme(t)) + "://" + lower(urlHost(t))
 //@ macro layout(t) = len(urlScheme(t)) + 3 < len(t) && t[len(urlScheme(t))] == ':' && t[len(urlScheme(t))+1] == '/' && t[len(urlScheme(t))+2] == '/' && urlScheme(t) == lower(t[:len(urlScheme(t))]) && forall(k, 0, len(urlScheme(t)), t[k] != ':' && t[k] != '/') &&
-//@ ..   forall(k, len(urlScheme(t)) + 3, len(t) - 1, !(t[k] == '/' && t[k+1] == '/')) &&
+//@ ..   forall(k, len(urlScheme(t)) + 3, len(t) - 1, t[k] == '/' ==> forall(m, 0, len(t), m == k + 1 ==> t[m] != '/')) &&
 //@ ..   (!urlHasUser(t) && t[len(urlScheme(t))+3] != '%' ==> urlHost(t)[0] == t[len(urlScheme(t))+3])
 
 // A wildcard entry e has the marker "://*." at markerAt(e) (its first occurrence); the '*' is taken out (destar), blanks
@@ -36,15 +36,44 @@ package csrf
 //@ macro blank() = ' '
 //@ macro destar(e, i) = e[:i+3] + e[i+4:]
 //@ macro markerAt(e) = strIndex(e, "://*.")
-//@ macro wildText(e) = trimmed(destar(e, markerAt(e)), blank())
+// The vocabulary of the list clauses as spec functions of ONE entry text (plain definitions, define-fun): an entry
+// cfg.TrustedOrigins[j] is a long term (cfg is a by-value struct copy), and a clause that repeats it a dozen times per
+// bound variable is beyond the size up to which the engine adds the ground witnesses (last element, first element, old
+// Skolem witness) to an existential goal - without them the goals of New's loop were decided by model-based
+// instantiation only and flipped with the solver seed. Same meaning as the expanded text:
+//   wildTextOf(e)    the wildcard entry e without its '*', trimmed          exactOf(e)       the listed form of an exact entry
+//   wildPrefixOf(e)  lower(scheme) "://" of it                              exactEntry(e)    e has no marker and is a valid origin
+//   wildSuffixOf(e)  lower(host) of it (starts with the '.' behind the '*') wildEntry(e)     e has the marker and is valid without the '*'
+//@ fn wildTextOf(e string) string = trimmed(destar(e, markerAt(e)), blank())
+//@ fn wildPrefixOf(e string) string = lower(urlScheme(wildTextOf(e))) + "://"
+//@ fn wildSuffixOf(e string) string = lower(urlHost(wildTextOf(e)))
+//@ fn exactOf(e string) string = normOf(trimmed(e, blank()))
+//@ fn exactEntry(e string) bool = markerAt(e) == -1 && validEntry(trimmed(e, blank()))
+//@ fn wildEntry(e string) bool = markerAt(e) >= 0 && validEntry(wildTextOf(e))
+//@ macro wildText(e) = wildTextOf(e)
 //@ macro lead(e, i) = trimLead(destar(e, i), blank())
 //@ macro cur() = cfg.TrustedOrigins[rangeindex+1]
-//@ macro exactFrom(x, e) = markerAt(e) == -1 && validEntry(trimmed(e, blank())) && x == normOf(trimmed(e, blank()))
-//@ macro wildFrom(p, s, e) = markerAt(e) >= 0 && validEntry(wildText(e)) && p == lower(urlScheme(wildText(e))) + "://" && s == lower(urlHost(wildText(e)))
+// (as functions of the list element(s) and ONE mention of the entry, for the same reason)
+//@ fn exactFromF(x string, e string) bool = exactEntry(e) && x == exactOf(e)
+//@ fn wildFromF(p string, s string, e string) bool = wildEntry(e) && p == wildPrefixOf(e) && s == wildSuffixOf(e)
+//@ fn wildListing(p string, s string, e string) bool = p == wildPrefixOf(e) && s == wildSuffixOf(e)
+//@ macro exactFrom(x, e) = exactFromF(x, e)
+//@ macro wildFrom(p, s, e) = wildFromF(p, s, e)
 // sdShape(p, s): p is "scheme://" (no ':' or '/' inside the scheme), s starts with '.', both in lower case.
 //@ fn sdShape(p string, s string) bool = len(p) > 3 && p[len(p)-3:] == "://" && forall(k, 0, len(p)-3, p[k] != ':' && p[k] != '/') && len(s) > 0 && s[0] == '.' && p == lower(p) && s == lower(s)
-//@ macro exactTraced(n) = forall(k, 0, len(trustedOrigins), exists(j, 0, n, exactFrom(trustedOrigins[k], cfg.TrustedOrigins[j])))
-//@ macro wildTraced(n) = forall(k, 0, len(trustedSubOrigins), exists(j, 0, n, wildFrom(trustedSubOrigins[k].prefix, trustedSubOrigins[k].suffix, cfg.TrustedOrigins[j])))
+// exactTraced / wildTraced: the conjunct len(...) >= 0 is true of every string; it names the list element OUTSIDE the
+// existential, so that the element is a ground term of the goal once k is fixed and the loop invariant (triggered on the
+// element) hands over its witness - the bound variable of a forall-exists clause must not occur under the exists only.
+//@ macro exactTraced(n) = forall(k, 0, len(trustedOrigins), len(trustedOrigins[k]) >= 0 && exists(j, 0, n, exactFrom(trustedOrigins[k], cfg.TrustedOrigins[j])))
+//@ macro wildTraced(n) = forall(k, 0, len(trustedSubOrigins), len(trustedSubOrigins[k].prefix) >= 0 && exists(j, 0, n, wildFrom(trustedSubOrigins[k].prefix, trustedSubOrigins[k].suffix, cfg.TrustedOrigins[j])))
 //@ macro wildShaped() = forall(k, 0, len(trustedSubOrigins), sdShape(trustedSubOrigins[k].prefix, trustedSubOrigins[k].suffix))
 //@ macro exactLower() = forall(k, 0, len(trustedOrigins), trustedOrigins[k] == lower(trustedOrigins[k]))
-//@ macro entryListed(e) = (markerAt(e) == -1 ==> exists(k, 0, len(trustedOrigins), trustedOrigins[k] == normOf(trimmed(e, blank())))) && (markerAt(e) >= 0 ==> exists(k, 0, len(trustedSubOrigins), trustedSubOrigins[k].prefix == lower(urlScheme(wildText(e))) + "://" && trustedSubOrigins[k].suffix == lower(urlHost(wildText(e)))))
+//@ macro exactListed(e) = markerAt(e) == -1 ==> exists(k, 0, len(trustedOrigins), trustedOrigins[k] == exactOf(e))
+//@ macro wildListed(e) = markerAt(e) >= 0 ==> exists(k, 0, len(trustedSubOrigins), wildListing(trustedSubOrigins[k].prefix, trustedSubOrigins[k].suffix, e))
+//@ macro entryListed(e) = exactListed(e) && wildListed(e)
+// The same three statements for New's postconditions, with the existential written as !forall(!...): the engine gives a
+// forall its E-matching pattern (the indexed element) and leaves an exists to the solver's pattern inference; at the exit
+// the witness is the one the loop invariant hands over (an index term of the invariant's instance), the pattern finds it.
+//@ macro exactTracedAtExit(n) = forall(k, 0, len(trustedOrigins), len(trustedOrigins[k]) >= 0 && !forall(j, 0, n, !exactFrom(trustedOrigins[k], cfg.TrustedOrigins[j])))
+//@ macro wildTracedAtExit(n) = forall(k, 0, len(trustedSubOrigins), len(trustedSubOrigins[k].prefix) >= 0 && !forall(j, 0, n, !wildFrom(trustedSubOrigins[k].prefix, trustedSubOrigins[k].suffix, cfg.TrustedOrigins[j])))
+//@ macro entryListedAtExit(e) = (markerAt(e) == -1 ==> !forall(k, 0, len(trustedOrigins), trustedOrigins[k] != exactOf(e))) && (markerAt(e) >= 0 ==> !forall(k, 0, len(trustedSubOrigins), !(wildListing(trustedSubOrigins[k].prefix, trustedSubOrigins[k].suffix, e))))
